@@ -265,6 +265,20 @@ pub fn drive(ctx: &mut Ctx, shp: &[u8], shx: &[u8], dbf: &[u8], ty: i32, n: usiz
         let x = j.call("iter_shapes_as(shx)", || on_type!(ty, S => drain_count(r.iter_shapes_as::<S>(), cap2), (0, 0, false)));
         j.iter_done("iter_shapes_as(shx)", x);
         let _ = j.call("read_nth_shape_as", || on_type!(ty, S => r.read_nth_shape_as::<S>(0).map(|x| x.is_ok()), None));
+        // the Iterator adaptors with extreme arguments, on an iterator that has already yielded an item
+        // and on a reader whose counter is not at its start: nth / skip / step_by / last
+        let _ = j.call("seek", || r.seek(1).is_ok());
+        let _ = j.call("iter.next+nth(MAX)", || {
+            let mut it = r.iter_shapes();
+            let a = it.next().is_some();
+            let b = it.nth(usize::MAX).is_some();
+            (a, b)
+        });
+        let _ = j.call("seek", || r.seek(1).is_ok());
+        let _ = j.call("iter.skip(MAX)", || r.iter_shapes().skip(usize::MAX).next().is_some());
+        let _ = j.call("seek", || r.seek(0).is_ok());
+        let _ = j.call("iter.step_by(MAX)", || r.iter_shapes().step_by(usize::MAX).take(3).count());
+        let _ = j.call("iter.last", || r.iter_shapes().last().is_some());
     } else {
         j.outcomes.push('X');
     }
@@ -626,7 +640,14 @@ pub fn ladder_index(n: u64, present: usize) -> Vec<(String, Vec<u8>, Vec<u8>)> {
         shx.extend_from_slice(&50i32.to_be_bytes());
         shx.extend_from_slice(&10i32.to_be_bytes());
     }
-    vec![(format!("index declaring {} entries, {} present", n, present), shp, shx)]
+    // the same index next to a .shp whose header agrees with it: a length that could hold as many
+    // records as the index declares entries (two files lying consistently)
+    let mut shp2 = shp.clone();
+    shp2[24..28].copy_from_slice(&clamp_words(100 + 28 * n).to_be_bytes());
+    vec![
+        (format!("index declaring {} entries, {} present", n, present), shp, shx.clone()),
+        (format!("index declaring {} entries, {} present, next to a .shp header declaring room for as many records", n, present), shp2, shx),
+    ]
 }
 
 pub const LADDER: [u64; 9] = [1_000, 100_000, 1_000_000, 10_000_000, 100_000_000, 1 << 27, 1 << 28, 1 << 29, (1u64 << 31) - 1];
